@@ -31,7 +31,7 @@ import (
 var verifSeq int
 
 // verifVariant: 0 every collection populated; 1 every collection empty; 2 the first collection among the value's
-// own fields empty, the others populated.
+// own fields empty, the others populated; 3 as 0 with every pointer to a string, number or boolean nil (absent).
 var verifVariant int
 var verifEmptied bool
 
@@ -58,6 +58,9 @@ func verifFill(v reflect.Value, depth int) {
 		v.SetString(fmt.Sprintf("s%d", verifSeq))
 	case reflect.Ptr:
 		if depth > 6 {
+			return
+		}
+		if verifVariant == 3 && v.Type().Elem().Kind() != reflect.Struct {
 			return
 		}
 		n := reflect.New(v.Type().Elem())
@@ -149,7 +152,7 @@ type verifDecFunc func(pd packetDecoder) error
 func (f verifDecFunc) decode(pd packetDecoder) error { return f(pd) }
 
 func verifRoundTrip(t *testing.T, name string, version int16, mk func() interface{}, enc func(v interface{}, pe packetEncoder) error, dec func(pd packetDecoder) (interface{}, error)) {
-	for variant := 0; variant < 3; variant++ {
+	for variant := 0; variant < 4; variant++ {
 		verifRoundTripOne(t, name, version, variant, mk(), enc, dec)
 	}
 }
@@ -425,4 +428,41 @@ func (p *Prog) wireReplayPoints(pr *wirePair, seen map[string]bool) []int64 {
 	}
 	sort.Slice(out, func(i, j int) bool { return out[i] < out[j] })
 	return out
+}
+
+// wireRoundTripStandIn (thorough tier only): the round-trip harness run on the current tree for every (type,
+// version) case it passed on the pinned tree. A bounded stand-in - four generated values per case - for what the
+// relational contract does not decide (the values carried by the tokens); labelled bounded, never counted as proved.
+func (p *Prog) wireRoundTripStandIn(prop string, base *baselineFile) (map[string]interface{}, []string) {
+	cases := map[string][]int64{}
+	for _, k := range base.WireReplay {
+		i := strings.Index(k, "/v")
+		var v int64
+		fmt.Sscanf(k[i+2:], "%d", &v)
+		cases[k[:i]] = append(cases[k[:i]], v)
+	}
+	file := filepath.Join(verifDir, "out", "bounded", "wire_roundtrip_test.go")
+	res, out, cmdline := p.wireReplayRun(p.wireReplaySource(cases), file)
+	rep := map[string]interface{}{"name": "wire_roundtrip", "file": "generated: " + file, "test": "TestVerifWireReplay",
+		"label": "BOUNDED stand-in: not a proof, not counted among the discharged obligations",
+		"summary": fmt.Sprintf("encode/decode/encode of 4 generated values for each of %d (type, version) cases that passed on the pinned tree; bound: the generated values (every collection with two elements / empty / first collection empty / optional scalars absent)", len(base.WireReplay)),
+		"cmd":     cmdline}
+	var fails []string
+	if len(res) == 0 {
+		fails = append(fails, "bounded harness did not complete: "+strings.ReplaceAll(truncate(out, 1500), "\n", " | "))
+	}
+	for _, k := range base.WireReplay {
+		if res[k] == "fail" {
+			detail := ""
+			for _, l := range strings.Split(out, "\n") {
+				if strings.Contains(l, "VERIF-REPRO "+k[:strings.Index(k, "/v")]+" version "+k[strings.Index(k, "/v")+2:]+":") {
+					detail = strings.TrimSpace(l)
+					break
+				}
+			}
+			fails = append(fails, k+": "+detail)
+		}
+	}
+	rep["failures_for_this_property"] = len(fails)
+	return rep, fails
 }
